@@ -357,6 +357,7 @@ func (r *jcRunner) mem(v jcVec, x jcExp, workBound int) {
 			}
 		case "error":
 			if ok {
+				r.miss("jc.halt", "%s: the length word does not denote a name inside memory, yet the instruction succeeded instead of halting the frame", desc)
 				r.miss("jc.work", "%s: a name of %v bytes was accepted for a flat fee", desc, ln)
 			}
 		case "either":
